@@ -230,16 +230,16 @@ theorem lookup_entries (o : Nat) (pre : List Rec) (r : Rec) (post : List Rec)
 theorem record_in_file (f : Hts.Spec.Fasta.File) (h : f.WF) (r : Rec) (hr : r ∈ f.recs) :
     ∃ R, Index.lookup (f.entries.map ofEntry) r.name = some R ∧ Good f.render R r.bases ∧
       R.name = r.name ∧ ∃ pre post, f.recs = pre ++ r :: post ∧
-        R = ofEntry (r.entry ((pre.map Rec.render).flatten.length)) := by
-  obtain ⟨_, hwf, hdist⟩ := h
+        R = ofEntry (r.entry (f.leading.length + (pre.map Rec.render).flatten.length)) := by
+  obtain ⟨_, hwf, hdist, _⟩ := h
   obtain ⟨pre, post, hsplit⟩ := List.append_of_mem hr
   obtain ⟨last, hok⟩ := recOK_of_mem f.recs hwf r hr
-  refine ⟨ofEntry (r.entry ((pre.map Rec.render).flatten.length)), ?_, ?_, rfl, pre, post, hsplit, rfl⟩
-  · have := lookup_entries 0 pre r post (by rw [← hsplit]; exact hdist)
-    rw [Nat.zero_add] at this
+  refine ⟨ofEntry (r.entry (f.leading.length + (pre.map Rec.render).flatten.length)), ?_, ?_, rfl, pre, post,
+    hsplit, rfl⟩
+  · have := lookup_entries f.leading.length pre r post (by rw [← hsplit]; exact hdist)
     simp only [Hts.Spec.Fasta.File.entries, hsplit]
     exact this
-  · have := good_rec r last hok (pre.map Rec.render).flatten (post.map Rec.render).flatten
+  · have := good_rec r last hok (f.leading ++ (pre.map Rec.render).flatten) (post.map Rec.render).flatten
     simp only [Hts.Spec.Fasta.File.render, hsplit, List.map_append, List.map_cons, List.flatten_append,
       List.flatten_cons]
-    simpa using this
+    simpa [List.length_append] using this
